@@ -39,7 +39,8 @@ func (e *CachedPointDataExtractor) Extract(point string) (*PointData, error) {
 	// getUsers:7#User_8
 
 	if strings.Contains(point, "#") {
-		idData := strings.Split(point, "#")
+		// the id is everything after the first "#": ids may contain "#" themselves
+		idData := strings.SplitN(point, "#", 2)
 		if len(idData) == 2 {
 			id = idData[1]
 		}
